@@ -76,7 +76,8 @@ def make_options():
                 DirectedEdge: {"v1side": "", "v2side": ">"}, SubDE: {"v1side": "<", "v2side": ""},
                 UnDirectedEdge: {"v1side": "", "v2side": ""}, SubUE: {"v1side": "o", "v2side": "o"}}
     if table == "titlefmt":
-        return {Vertex: {"type": "object", "show_attrs": ["i$"], "title_format": "v{i}"},
+        # a format that reads INTO an attribute ({i.real}) and nests a field in a format spec ({i.real:{i.imag}})
+        return {Vertex: {"type": "object", "show_attrs": ["i$"], "title_format": "v{i.real}w{i.real:{i.imag}}"},
                 DirectedEdge: {"v1side": "", "v2side": ">"}, UnDirectedEdge: {"v1side": "", "v2side": ""}}
     if table == "arrows":
         return {Vertex: {"type": "object", "show_attrs": ["i$"], "title_format": "$id"},
